@@ -198,6 +198,12 @@ theorem setitem_identifier_in_backend (st : St) (i : Id) (t : T) (hid : t.id = s
     (ho : lookup i st.temp = none) (hb : hasKey i st.backend = true) : setitem st i t = .error .idTaken := by
   simp [setitem, hid, ho, hb]; rfl
 
+/-- a store that raises leaves the storage as it was (`overwrite` closes the transaction in its `finally` block and
+nothing is `put` before the whole transaction is encoded): later stores behave as if it had never been tried -/
+theorem rejected_store_unchanged (st : St) (i : Id) (t : T) (e : Err) (h : setitem st i t = .error e) :
+    setitemTry st i t = (st, [], false) := by
+  simp [setitemTry, h]
+
 /-- a reference to an identifier that is not in the backend cannot be loaded (`KeyError`) -/
 theorem load_missing (f : Nat) (s : Store) (i : Id) (h : lookup i s = none) : load f s i = .error .keyError := by
   simp [load, h]; rfl
@@ -219,6 +225,17 @@ example : ((store example_root).toOption.bind fun r => (load 10 r.1.backend "sh"
 /-- the caching loader builds the shared pulse once -/
 example : ((store example_root).toOption.bind fun r => (loadC 10 r.1.backend {} "root").toOption).map
     (fun r => r.2.built) = some ["sh", "c2", "root"] := by decide
+
+/-- two different objects with one identifier inside one store operation are rejected (`RuntimeError`), also when
+the clash is with the root -/
+example : store (T.seq (some "s") [T.const (some "a") (.atom "1") (.atom "x") (.atom "n") [],
+                                   T.const (some "a") (.atom "2") (.atom "x") (.atom "n") []] [] []) = .error .idTaken := by
+  rfl
+example : store (T.timeRev (some "s") (T.const (some "s") (.atom "1") (.atom "x") (.atom "n") [])) = .error .idTaken := by
+  rfl
+/-- the same object twice inside one store operation is collected once -/
+example : (store (T.seq (some "s") [shared, shared] [] [])).toOption.map (fun r => r.2.map Prod.fst) = some ["sh", "s"] := by
+  decide
 
 /-! every class constructor yields a well-formed node on plain data -/
 private def a : J := .atom "x"
